@@ -3,6 +3,7 @@
 // (short histories) or every 64th (long ones); live overload trees validated through the hook.
 #include "common.hpp"
 #include "inspect.hpp"
+#include "reserved.hpp"
 #include <ipr/impl>
 #include <algorithm>
 #include <set>
@@ -355,6 +356,51 @@ static void homogeneous(std::uint64_t seed, int hist)
    if (hist == 0) ctx().sample(J().s("kind", "homogeneous").n("members", n).str(), 4);
 }
 
+// A homogeneous scope longer than any narrow index type can count (positions at and beyond 2^8 and 2^16).  Positions,
+// names and types are read from the members themselves; the sequence and the look-ups are probed around the boundaries
+// (some of the list implementations index linearly).  kind: 0 enumerators, 1 parameters, 2 bases.
+static void very_long(std::uint64_t seed, int kind)
+{
+   Rng rng(seed);
+   impl::Lexicon lex; impl::Translation_unit unit { lex };
+   const Lexicon& L = lex; auto& greg = *unit.global_region();
+   const std::size_t n = 65536 + 16 + rng.below(48);
+   const char* what = kind == 0 ? "enumerator" : kind == 1 ? "parameter" : "base";
+   auto V = [&](const std::string& k, const std::string& msg, std::size_t i) { ctx().viol(std::string("very-long:") + what + ":" + k, msg, J().s("kind", what).n("members", (long long)n).n("index", (long long)i).str()); };
+   std::vector<const Decl*> mem; mem.reserve(n);
+   std::vector<const Identifier*> ids; ids.reserve(n);
+   const Scope* sc = nullptr; const Type* elem_type = &L.int_type();
+   impl::Enum* en = nullptr; impl::Mapping* mp = nullptr; impl::Class* cl = nullptr;
+   if (kind == 0) { en = lex.make_enum(greg, Enum::Kind::Scoped); elem_type = en; } else if (kind == 1) mp = lex.make_mapping(greg, Mapping_level { 1 }); else cl = lex.make_class(greg);
+   for (std::size_t i = 0; i < n; ++i) {
+      ids.push_back(&lex.get_identifier(widen("m" + std::to_string(i))));
+      const Decl* d = kind == 0 ? static_cast<const Decl*>(en->add_member(*ids.back())) : kind == 1 ? static_cast<const Decl*>(mp->param(*ids.back(), L.int_type())) : static_cast<const Decl*>(cl->declare_base(L.int_type()));
+      mem.push_back(d);
+   }
+   sc = kind == 0 ? &en->region().bindings() : kind == 1 ? &mp->parameters().region().bindings() : &mem[0]->home_region().bindings();
+   for (std::size_t i = 0; i < n; ++i) {
+      std::size_t pos = ~std::size_t(0);
+      if (auto e = util::view<Enumerator>(*mem[i])) pos = std::size_t(e->position()); else if (auto p = util::view<Parameter>(*mem[i])) pos = std::size_t(p->position()); else if (auto b = util::view<Base_type>(*mem[i])) pos = std::size_t(b->position());
+      if (pos != i) { V("position", std::string("a member ") + (i < 65536 ? "below 2^16" : "at or beyond 2^16") + " reports a position that is not its zero-based index", i); break; }
+      if (kind != 2 && &mem[i]->name() != ids[i]) { V("name", "a member of a very long scope does not report the name it was declared with", i); break; }
+      if (&mem[i]->type() != elem_type) { V("type", "a member of a very long scope does not report its type", i); break; }
+      ctx().count(std::string("very_long_members_checked:") + what);
+   }
+   if (sc->size() != n) V("size", "the scope reports " + std::to_string(sc->size()) + " members, " + std::to_string(n) + " were added", n);
+   for (std::size_t i : { std::size_t(0), std::size_t(255), std::size_t(256), std::size_t(65535), std::size_t(65536), std::size_t(65537), n - 1 }) {
+      if (&*sc->elements().position(i) != mem[i]) V("order", "element " + std::to_string(i) + " of the scope is not the member entered at that position", i);
+      if (kind != 2) {
+         auto o = (*sc)[*ids[i]];
+         if (!o.is_valid()) V("lookup", "the name of member " + std::to_string(i) + " is not found in its scope", i);
+         else { auto sel = o.get()[*elem_type]; if (!sel.is_valid() || &sel.get() != mem[i]) V("select", "look-up by name and type does not yield member " + std::to_string(i), i); }
+      }
+      if (&mem[i]->master() != mem[i]) V("master", "a member of a homogeneous scope is not its own master declaration", i);
+      if (mem[i]->decl_set().size() != 1 || &*mem[i]->decl_set().begin() != mem[i]) V("decl-set", "the declaration set of a member of a homogeneous scope is not the singleton of that member", i);
+   }
+   ctx().count("very_long_scopes"); ctx().maxi("longest_homogeneous_scope", (long long)n);
+   ctx().eval(hash_mix(0x7e410, std::uint64_t(kind)));
+}
+
 static void body(Ctx& C)
 {
    C.rule("a case = one declaration history: a random sequence of var/field/bitfield/alias/typedecl/fundecl/primary/secondary-template "
@@ -375,6 +421,12 @@ static void body(Ctx& C)
    for (int h = 0; h < nlong; ++h) heterogeneous(seeds.next(), C.thorough ? 20000 : 3000, false, h + C.worker);
    const int nhomo = C.thorough ? 600 : 30;
    for (int h = 0; h < nhomo; ++h) homogeneous(seeds.next(), h);
+   // very long homogeneous scopes: enumerations (constant time per addition) on two workers in every tier; parameter and
+   // base lists (quadratic to build, 10-20 s) in the thorough tier, where C12's quick tier already builds them
+   if (C.worker % 4 == 0) very_long(seeds.next(), 0);
+   if (C.thorough && C.worker % 4 == 1) very_long(seeds.next(), 1);
+   if (C.thorough && C.worker % 4 == 2) very_long(seeds.next(), 2);
+   C.need("very_long_scopes"); C.need("very_long_members_checked:enumerator");
 }
 
 int main(int argc, char** argv) { return guarded_main(argc, argv, body); }
